@@ -227,6 +227,9 @@ func suiteC20(rng *Rng, thorough bool, s *Sink) {
 			scens = append(scens, scen{id, true, false, -1, false, false}, scen{id, true, true, -1, false, false})
 		}
 	}
+	// silent exactly at the last registers read (the field-list group comes last): -2 = after all but one answer, -3 = all but two
+	scens = append(scens, scen{0xA056, false, false, -2, false, false}, scen{0xA231, false, true, -2, false, false}, scen{0xA231, true, false, -3, false, false},
+		scen{0xA05F, false, false, -2, false, false}, scen{0x203, false, false, -2, false, false})
 	scens = append(scens, scen{0xA056, false, false, 0, false, false}, scen{0xA381, false, true, 7, false, false}, scen{0x203, true, false, 3, false, false}, scen{0xA231, false, false, -1, true, false},
 		scen{0xA053, false, false, 5, false, true}, scen{0x203, false, true, 0, false, true})
 	if thorough {
@@ -237,6 +240,9 @@ func suiteC20(rng *Rng, thorough bool, s *Sink) {
 	for _, sc := range scens {
 		p := veproduct.Product(sc.id)
 		rl, _ := expectedRegs(p)
+		if sc.silent <= -2 {
+			sc.silent = rl.Len() + sc.silent + 1
+		}
 		dev := NewDevPort(sc.id)
 		dev.NoPing = sc.noPing
 		dev.SilentAfter = sc.silent
@@ -248,6 +254,9 @@ func suiteC20(rng *Rng, thorough bool, s *Sink) {
 			pl := answerFor(kind, r, e, rng)
 			if kind == 1 && rng.Intn(3) == 0 {
 				pl = [][]byte{{0xFF, 0xFF}, {0x00, 0x80}, {0xFF, 0xFF, 0xFF, 0x7F}, {0x80}, {0x9C}, {0xFF, 0xFF, 0xFF, 0xFF}}[rng.Intn(6)]
+			}
+			if kind == 2 && rng.Intn(2) == 0 { // a long text: a frame of more than a hundred characters
+				pl = append([]byte("SmartSolar Charger MPPT VE.Can 250/100 rev2 - installed on the roof of the boat house"[:43+rng.Intn(40)]), 0)
 			}
 			dev.Regs[r.Address()] = DevAnswer{0, pl}
 			mp = append(mp, fmt.Sprintf("%d=ok:%s", r.Address(), HEX(pl)))
